@@ -15,9 +15,16 @@ def main():
     args = [a for a in sys.argv[2:] if not a.startswith("--")]
     name = args[0] if args else pid
     checks = [pid]
+    extra, srcs, incs = "", [], []
     for a in sys.argv[2:]:
         if a.startswith("--checks"):
             checks = a.split("=", 1)[1].split(",")
+        if a.startswith("--extra="):
+            extra = a.split("=", 1)[1]
+        if a.startswith("--srcs="):
+            srcs = a.split("=", 1)[1].split(",")
+        if a.startswith("--inc="):
+            incs = a.split("=", 1)[1].split(",")
     src = f"/tmp/seed_{pid}_out"
     for f in ("patch.diff", "demo.cpp", "notes.md"):
         if not os.path.exists(os.path.join(src, f)):
@@ -27,14 +34,16 @@ def main():
     try:
         sh(f"git -C /repo archive HEAD | tar -x -C {d}")
         # demo without the change
-        r = sh(f"g++ -std=c++17 -I{d}/include {src}/demo.cpp -o {d}/demo0 && {d}/demo0", timeout=900)
+        comp = lambda out: (f"g++ -std=c++17 {extra} -I{d}/include " + " ".join(f"-I{d}/{i}" for i in incs) + f" {src}/demo.cpp " +
+                            " ".join(f"{d}/{x}" for x in srcs) + f" -o {d}/{out} && {d}/{out}")
+        r = sh(comp("demo0"), timeout=1800)
         ran.append(f"demo on unchanged tree: exit {r.returncode}")
         if r.returncode != 0:
             print("demo fails on the unchanged tree", r.stdout[-500:], r.stderr[-500:]); return 3
         r = sh(f"patch -p1 -d {d} -i {src}/patch.diff")
         if r.returncode != 0:
             print("patch does not apply", r.stdout, r.stderr); return 4
-        r = sh(f"g++ -std=c++17 -I{d}/include {src}/demo.cpp -o {d}/demo1 && {d}/demo1", timeout=900)
+        r = sh(comp("demo1"), timeout=1800)
         ran.append(f"demo with the change: exit {r.returncode}")
         if r.returncode == 0:
             print("demo passes with the change"); return 5
@@ -52,7 +61,8 @@ def main():
         shutil.copy(os.path.join(src, f), dst)
     prop = json.loads([l for l in open(os.path.join(VERIF, "properties.jsonl")) if json.loads(l)["id"] == pid][0])
     meta = {"property": pid, "title": prop["title"], "origin": "independent sub-agent given only the property text and its own scratch worktree",
-            "needs_to_manifest": "see notes.md", "confirmed": ran, "checks": checks}
+            "needs_to_manifest": "see notes.md", "confirmed": ran, "checks": checks,
+            "demo_compile": f"g++ -std=c++17 {extra} -I<tree>/include " + " ".join(f"-I<tree>/{i}" for i in incs) + " demo.cpp " + " ".join(f"<tree>/{x}" for x in srcs)}
     json.dump(meta, open(os.path.join(dst, "meta.json"), "w"), indent=1)
     print("adopted", dst, ran)
     return 0
